@@ -76,6 +76,9 @@ def _case_class(c):
         extra = " mw=header/date(name=%s,loc=%s)" % (c["mw"]["name"] or "default", c["mw"]["loc"] or "UTC")
     if "side" in c:
         extra = " side=answlog:%s,status:%s,httptrace:%s" % (c["side"]["answlog"], c["side"]["status"], c["side"]["trace"])
+    if "rt" in c:        # structured RFC 3986 request-target: name the character classes it is made of
+        cl = sorted(({p["class"] for p in c["rt"]["segs"]} | {c["rt"]["query"]["class"]}) - {"none", "unreserved"})
+        extra += " target=rfc3986(%s%s) preload=%s" % (",".join(cl) or "plain", ",bare-?" if c["rt"]["query"]["raw"] == "?" else "", c["preload"])
     en = sorted(h["n"].lower() for h in c["ehdr"])
     on = sorted(o["n"].lower() for o in c["opts"])
     overlap = sorted(set(en) & set(on))
@@ -157,7 +160,8 @@ def run(tier, v):
             ("HttpConnMC", "HttpConn_neg_noreuse.cfg"), ("HttpConnMC", "HttpConn_neg_idledrop.cfg"),
             ("HttpConnMC", "HttpConn_neg_ownclient.cfg"), ("HttpConnMC", "HttpConn_neg_noexpire.cfg"),
             ("HttpWireMC", "HttpWire_neg_shared_cursor.cfg"), ("HttpWireMC", "HttpWire_neg_framing_chunked.cfg"),
-            ("HttpWireMC", "HttpWire_neg_target_resolved.cfg")]
+            ("HttpWireMC", "HttpWire_neg_target_resolved.cfg"),
+            ("HttpWireMC", "HttpWire_neg_uri_rebuilt.cfg")]
     if not thorough:
         # quick: one negative control per mechanism; the thorough tier runs all of them
         skip = ("host_target", "opt_always", "mw_twice", "side_changes", "shared1", "noreuse", "empty_undefined")
@@ -230,6 +234,8 @@ def run(tier, v):
         "conn_runs_connect_gun": sum(1 for r in runs if r.get("gun") == "connect"),
         "conn_runs_shared_client": sum(1 for r in runs if r.get("shared")),
         "named_target_cases": sum(1 for c in gen if c["c"].get("tname")),
+        "rfc3986_target_cases": sum(1 for c in gen if "rt" in c["c"]),
+        "rfc3986_targets": len({c["c"]["uri"] for c in gen if "rt" in c["c"]}),
         "reuse_cases": len(reuse_ids), "reuse_requests_checked": sum(1 for r in rows if r["id"] in reuse_ids),
         "conn_runs_idle_expiry": sum(1 for r in runs if r.get("idle_ms") and r.get("gap_ms", 0) > r["idle_ms"]),
         "single_entry_cases": len(gen) - len(files) - len(reuse_ids), "multi_entry_files": len(files), "file_entries_checked": len(rows) - len(single),
